@@ -68,23 +68,37 @@ def observe(loop: KLoop, peer: ScriptPeer, res, t0, t1, log_from=0, sent_from=0)
                open_sockets=len(kern.socks))
 
 
-def run_single(cfg: dict, ctx, letters=None, conn_letters=None, fp=True):
-    """One request on a fresh protocol object against a ScriptPeer whose answers come from ctx."""
+def run_single(cfg: dict, ctx, letters=None, conn_letters=None, fp=True, prior=()):
+    """One request on a protocol object against a ScriptPeer whose answers come from ctx.
+
+    prior: scripts of earlier requests on the same object (non-initial states); they are forced, not explored,
+    and the explored request follows at once (answers of the earlier requests may still be in flight)."""
     world.reset()
-    peer = ScriptPeer(cfg['transport'], cfg['T'], ctx, letters, conn_letters)
+    peer = ScriptPeer(cfg['transport'], cfg['T'], None, letters, conn_letters)
+    peer.default_letter = 'valid'
     loop = KLoop(peer, ctx=ctx)
     p = make_protocol(cfg['transport'], cfg['T'], cfg['R'], cfg['ka'])
+    for sc in prior:
+        peer.forced = list(sc)
+        loop.kern.ntx = 0
+        loop.run(_exec(make_command(p, cfg.get('cmd', 'read')), p))
+    peer.forced = []
+    peer.ctx = ctx
+    loop.kern.ntx = 0
     if fp:
         ctx.fp = lambda: fingerprint(loop, (p,))
     cmd = make_command(p, cfg.get('cmd', 'read'))
+    t0 = loop.time()
+    l0, s0, c0 = len(loop.kern.log), len(peer.sent), len(peer.connects)
     st, res = loop.run(_exec(cmd, p))
     t1 = loop.time()
     if st == 'hang':
         res = ('hang', res)
     loop.settle(0)
-    obs = observe(loop, peer, res, 0.0, t1)
-    obs['served'] = peer.served
-    obs['valid_for'] = peer.valid_for
+    obs = observe(loop, peer, res, t0, t1, l0, s0)
+    obs['connects'] = peer.connects[c0:]
+    obs['served'] = peer.served[s0:]
+    obs['valid_for'] = peer.valid_for[s0:]
     obs['transports_open'] = sum(1 for t in loop.kern.transports if not t.is_closing())
     ctx.fp = None
     return obs
